@@ -9,7 +9,8 @@ QUICK_MAX_S = 125
 FUNCTIONS = ["erltf::decode, decode_borrowed, decoder::decode_with_trailing, decode_with_atom_cache, decoder::decode_fragment_header, "
              "decode_fragment_cont -> every parse_* with a wire-supplied length/arity/count field, owned and zero-copy copies",
              "E2 (stateful MIR interpreter): parse_list, parse_small_tuple, parse_large_tuple, parse_new_fun_ext, parse_newer_reference, "
-             "parse_new_reference_ext, parse_compressed up to their first Vec::with_capacity"]
+             "parse_new_reference_ext, parse_compressed up to their first Vec::with_capacity; 23 leaf parsers of both decoders (binary, bit-binary, "
+             "string, bigs, the atom tags, integers, float; owned and zero-copy) for panic freedom"]
 ASSUMPTIONS = c01.ASSUMPTIONS + ["T3: every single allocation request must be <= 64*len(input)+4096 bytes (assertion in the allocator model; "
                                  "the native replay uses a counting global allocator)",
                                  "E2 capacity sites: input = slice of symbolic length and unknown content; nom number parsers return arbitrary values; nested "
@@ -80,6 +81,8 @@ def extra_checks(tier, seed):
     from . import c02_caps
     out = []
     c02_caps.run(out)
+    from . import c02_leaf
+    c02_leaf.run(out)
     return out
 
 
@@ -88,4 +91,7 @@ def replay_case(case):
     if "capfn" in e:
         from . import c02_caps
         return c02_caps.replay(e["capfn"], e["in_len"], e["wire"])
+    if "leaffn" in e:
+        from . import c02_leaf
+        return c02_leaf.replay(e["leaffn"], e["in_len"], e["wire"])
     return None
